@@ -313,6 +313,7 @@ func execQueueOldService(c *child.Ctx, k queueCase, cj []byte) {
 // queue happen at the same moment, thousands of new queues: once they have returned,
 // a snapshot holds all their messages (the capacity allows it).
 func execQueueFirstAdds(c *child.Ctx, k queueCase, cj []byte) {
+	runtime.GOMAXPROCS(16) // the adders spin at the barrier: they need processors of their own
 	for trial := 0; trial < k.Adds; trial++ {
 		q := circularQueue.NewCircularQueue(k.Cap)
 		var wg sync.WaitGroup
